@@ -110,6 +110,7 @@ inductive Op where
   /-- `RenameRegexp`: `ok` = the regular expression compiled; `names` = the value of
   `r.ReplaceAllString(name, replace)` for every row in order (regexp is external: computed by Go's regexp) -/
   | renameRe (ok : Bool) (names : List String)
+  | setAlpha (alphabet : Int)
 deriving Repr
 
 /-- the float threshold test of the cleaning functions: `cutoff = num/den` as `float64` -/
@@ -209,6 +210,7 @@ def stepOp (b : Bag) : Op → Bag × String
     -- a regular expression that does not compile: an error, nothing touched (`namemap` stays empty)
     if !ok then (b, "err" ++ mapStatus []) else
     let r := renameRegexp names b; (r.1, "ok" ++ mapStatus r.2)
+  | .setAlpha a => let r := setAlphabet a b; (r.1, if r.2 then "err" else "ok")
 
 /-- run a history, collecting the states after every step -/
 def runOps : Bag → List Op → List (Bag × String)
